@@ -1459,6 +1459,18 @@ class Gen:
                 l = ch.choice(ls)
                 out.append(f'{ind}for {x} in {l}:')
                 fn.env[x] = Sc(fn.env[l].elem, sf=fn.env[l].sf)
+            elif form == 'range' and ch.bool(0.5):
+                # stepped range that ends at a rung of the integer storage ladder: the last body value fits the
+                # rung, the value the counter takes on exit does not (<= 4 trips, like every generated loop)
+                top = ch.choice([127, 127, 255, 32767, 32767, 65535, 2 ** 31 - 1])
+                st = ch.choice([2, 3, 5, 7])
+                last = top - ch.int(0, st - 1)
+                trips = ch.int(1, 4)
+                start = last - st * (trips - 1)
+                stop = last + ch.int(1, st)
+                out.append(f'{ind}for {x} in range({start}, {stop}, {st}):')
+                fn.env[x] = Sc(int_kind_of_range(start, last))
+                self.features.add('range-step-at-ladder-rung')
             elif form == 'range':
                 n = ch.int(0, 4)
                 out.append(f'{ind}for {x} in range({n}):')
